@@ -98,6 +98,9 @@ M = {
  'm28': (S + 'model.py', "            matching[pair.student_index] = str(pair.projectID)\n        return ' '.join(matching)",
          "            matching[pair.student_index] = str(pair.projectID if pair.projectID < 3 else pair.project_index + 1 - (pair.projectID == 3 and self.num_projects > 3))\n        return ' '.join(matching)",
          ['C11', 'C01'], 'matching line prints 2 instead of 3 when there are more than three projects'),
+ 'm29': (S + 'solver.py', "            self.model.pulp_status = pulp_status\n",
+         "            if getattr(self.model, 'pulp_status', None) in (None, '', self.model.OPTIMAL_PULP_STATUS):\n                self.model.pulp_status = pulp_status\n",
+         ['C14'], 'the first status that is not Optimal sticks to the object: a later run that fails differently shows the earlier run\'s status (needs two cut-short runs on one object; MC_Runs)'),
 }
 del M['m24']
 
